@@ -1319,7 +1319,7 @@ fn main() {
 		// fee scenarios (update_fee in flight, asymmetric reserves): implementation-side oracles only, the Lean models have no fee updates
 		let with_fee = sc % 6 == 4 || sc % 6 == 1;
 		let mut sub = Rng::new(rng.next());
-		let mut net = match guarded(std::panic::AssertUnwindSafe(|| scenario(&mut sub, steps, async_persist, with_disc, with_fee, tiny_push, c01_chan && sc % 3 == 2))) {
+		let mut net = match guarded(std::panic::AssertUnwindSafe(|| scenario(&mut sub, steps, async_persist, with_disc, with_fee, tiny_push, c01_chan && (sc % 3 == 2 || (with_fee && with_disc))))) {
 			// the send-limit exactness oracles state C01's last sentence: they are reported under C01 only
 			Ok((n, viol)) => { let c01 = std::env::var("VERIF_PROPERTY").map(|p| p == "C01").unwrap_or(true); for v in viol { if c01 || !v.contains("limit") { rec.oracle_fail(format!("scenario {}: {}", sc, v)); } } n },
 			Err(p) => { rec.oracle_fail(format!("scenario {} (seed {}, async={}) panicked: {}", sc, args.seed, async_persist, p.chars().take(200).collect::<String>())); continue; },
